@@ -360,6 +360,12 @@ def check_C10(chk):
                                            "modelled, not verified: snprintf truncation at message_size (the +512 slack), the x86-64 varargs ABI",
                                            "axioms: see coverage.print_assumptions"]
     cases = gen_C10(chk)
+    # the percent-doubling routine translated whole from src/message_formatting.c, run by the extracted CLite
+    # interpreter against Printf.double_percent; texts on which they differ go to the real assertions as well
+    import codetie
+    for t in codetie.string_function(chk, "percent", codetie.percent_inputs(chk), "double_all_percent_signs_in()")[:40]:
+        if t and 0 not in t:
+            cases += [c for c in (("A", "eq", t, b"x", 1, 2), ("A", "eq", b"x", t, 1, 2), ("S", "eq", b"x", t, t, b"q")) if fails(c)]
     impl_lines, model_lines = zip(*(fmt_C10(c) for c in cases))
     out, rc = run_lines(drv, impl_lines)
     if rc != 0 or len(out) != len(cases):
